@@ -61,6 +61,11 @@ def corruptions(fmt, doc: bytes, r, budget):
         for k in range(len(text)):
             if text[k:k + 1] == c:
                 cands.append(("unbalance-replace-closing@%d" % k, text[:k] + o + text[k + 1:]))
+    # a raw control character / a byte that can never start a UTF-8 sequence, at a few positions
+    for k in sorted({0, len(text) // 3, len(text) // 2, max(len(text) - 2, 0), len(text)}):
+        for name, b in (("insert-NUL", b"\x00"), ("insert-control-01", b"\x01"), ("insert-ESC", b"\x1b"),
+                        ("insert-DEL", b"\x7f"), ("insert-C1-control", "\u0085".encode()), ("insert-BOM-inside", "\ufeff".encode())):
+            cands.append(("%s@%d" % (name, k), text[:k] + b + text[k:]))
     if fmt in ("xml", "html", "plist"):
         import re
         closes = [(m.start(), m.end()) for m in re.finditer(rb"</[A-Za-z0-9]+>", text)]
